@@ -87,6 +87,7 @@ type sut struct {
 	replicas map[string]*replica
 	logs     *logCapture
 	sched    *scheduler // optional store/IdP scheduler
+	born       time.Time // miniredis' clock stands still unless fast-forwarded: REAL time that passes (retry budgets, provider time-outs) makes it trail the replicas' clock too
 	replicaKey []byte   // when set, the NEXT replicas are built with this deployment key instead of the shared one
 }
 
@@ -127,7 +128,7 @@ func newSut(o sutOpts) *sut {
 	if o.mode == "" {
 		o.mode = "standalone"
 	}
-	s := &sut{o: o, replicas: map[string]*replica{}, key: []byte(deployKey)}
+	s := &sut{o: o, replicas: map[string]*replica{}, key: []byte(deployKey), born: time.Now()}
 	s.logs = installLogCapture()
 	s.crypter = crypto.NewCrypter(s.key)
 	addSecretBytes("deployment_key", s.key)
